@@ -35,6 +35,12 @@ def make_copy(repo):
 def run_variant(repo, v):
     d = make_copy(repo)
     try:
+        if v.get('patch'):
+            r = subprocess.run(['git', 'apply', '--unsafe-paths', '--directory', d, v['patch']], capture_output=True, text=True, cwd='/')
+            if r.returncode != 0:
+                r = subprocess.run(['patch', '-p1', '-s', '-i', v['patch']], capture_output=True, text=True, cwd=d)
+                if r.returncode != 0:
+                    return {'id': v['id'], 'status': 'skipped', 'why': 'patch does not apply: %s' % (r.stdout + r.stderr)[-120:]}
         for ed in v['edits']:
             p = os.path.join(d, ed['file'])
             s = open(p, encoding='utf-8').read()
@@ -66,8 +72,20 @@ def run_variant(repo, v):
         shutil.rmtree(d, ignore_errors=True)
 
 
-def load_variants():
+def load_seeded():
     out = []
+    d = os.path.join(VERIF, 'seeded')
+    for sid in sorted(os.listdir(d)) if os.path.isdir(d) else []:
+        mp = os.path.join(d, sid, 'meta.json')
+        if os.path.exists(mp):
+            m = json.load(open(mp))
+            if m.get('detected_by_own_check'):
+                out.append({'id': 'seeded-' + sid, 'property': m['property'], 'expect': 'fire', 'patch': os.path.join(d, sid, 'patch.diff'), 'edits': []})
+    return out
+
+
+def load_variants():
+    out = load_seeded()
     d = os.path.join(VERIF, 'selftest')
     for fn in sorted(os.listdir(d)) if os.path.isdir(d) else []:
         if fn.endswith('.json'):
